@@ -31,12 +31,25 @@ type BinaryDecoder interface {
 	Decode([]byte) (int, error)
 }
 
-func Decode(b []byte, v interface{}) (int, error) {
-	val := reflect.ValueOf(v)
-	return decode(b, val, val.Type().String())
+// maxDecodeDepth is the maximum nesting level of recursive data types like
+// Variant, DataValue, DiagnosticInfo and ExtensionObject the decoder accepts.
+//
+// Part 6, 5.1.8: decoders shall support at least 100 nesting levels and
+// report an error if a message exceeds their limit.
+const maxDecodeDepth = 100
+
+// depthDecoder is implemented by the recursive data types
+// to keep track of the nesting level while decoding.
+type depthDecoder interface {
+	decodeDepth(b []byte, depth int) (int, error)
 }
 
-func decode(b []byte, val reflect.Value, name string) (n int, err error) {
+func Decode(b []byte, v interface{}) (int, error) {
+	val := reflect.ValueOf(v)
+	return decode(b, val, val.Type().String(), 0)
+}
+
+func decode(b []byte, val reflect.Value, name string, depth int) (n int, err error) {
 	if debugCodec {
 		fmt.Printf("decode: %s has type %v and is a %s, %d bytes\n", name, val.Type(), val.Type().Kind(), len(b))
 		defer func() {
@@ -47,6 +60,9 @@ func decode(b []byte, val reflect.Value, name string) (n int, err error) {
 	buf := NewBuffer(b)
 	switch {
 	case isBinaryDecoder(val):
+		if v, ok := val.Interface().(depthDecoder); ok {
+			return v.decodeDepth(b, depth)
+		}
 		v := val.Interface().(BinaryDecoder)
 		return v.Decode(b)
 	case isTime(val):
@@ -79,13 +95,13 @@ func decode(b []byte, val reflect.Value, name string) (n int, err error) {
 		case reflect.String:
 			val.SetString(buf.ReadString())
 		case reflect.Slice:
-			return decodeSlice(b, val, name)
+			return decodeSlice(b, val, name, depth)
 		case reflect.Array:
-			return decodeArray(b, val, name)
+			return decodeArray(b, val, name, depth)
 		case reflect.Ptr:
-			return decode(b, val.Elem(), name)
+			return decode(b, val.Elem(), name, depth)
 		case reflect.Struct:
-			return decodeStruct(b, val, name)
+			return decodeStruct(b, val, name, depth)
 		default:
 			return 0, errors.Errorf("unsupported type %s", val.Type())
 		}
@@ -93,7 +109,7 @@ func decode(b []byte, val reflect.Value, name string) (n int, err error) {
 	return buf.Pos(), buf.Error()
 }
 
-func decodeStruct(b []byte, val reflect.Value, name string) (int, error) {
+func decodeStruct(b []byte, val reflect.Value, name string, depth int) (int, error) {
 	pos := 0
 	valt := val.Type()
 	for i := 0; i < val.NumField(); i++ {
@@ -108,7 +124,7 @@ func decodeStruct(b []byte, val reflect.Value, name string) (int, error) {
 			// fmt.Printf("decode: %s has type %v and has new value %#v\n", fname, f.Type(), f.Interface())
 		}
 
-		n, err := decode(b[pos:], f, fname)
+		n, err := decode(b[pos:], f, fname, depth)
 		if err != nil {
 			return pos, err
 		}
@@ -117,7 +133,7 @@ func decodeStruct(b []byte, val reflect.Value, name string) (int, error) {
 	return pos, nil
 }
 
-func decodeSlice(b []byte, val reflect.Value, name string) (int, error) {
+func decodeSlice(b []byte, val reflect.Value, name string, depth int) (int, error) {
 	buf := NewBuffer(b)
 	n := buf.ReadUint32()
 	if buf.Error() != nil {
@@ -163,7 +179,7 @@ func decodeSlice(b []byte, val reflect.Value, name string) (int, error) {
 		}
 
 		ename := fmt.Sprintf("%s[%d]", name, i)
-		m, err := decode(b[pos:], a.Index(i), ename)
+		m, err := decode(b[pos:], a.Index(i), ename, depth)
 		if err != nil {
 			return pos, err
 		}
@@ -183,7 +199,7 @@ func isEmptyStruct(t reflect.Type) bool {
 	return t.Kind() == reflect.Struct && t.NumField() == 0
 }
 
-func decodeArray(b []byte, val reflect.Value, name string) (int, error) {
+func decodeArray(b []byte, val reflect.Value, name string, depth int) (int, error) {
 	buf := NewBuffer(b)
 	n := buf.ReadUint32()
 	if buf.Error() != nil {
@@ -226,7 +242,7 @@ func decodeArray(b []byte, val reflect.Value, name string) (int, error) {
 		}
 
 		ename := fmt.Sprintf("%s[%d]", name, i)
-		m, err := decode(b[pos:], a.Index(i), ename)
+		m, err := decode(b[pos:], a.Index(i), ename, depth)
 		if err != nil {
 			return pos, err
 		}
